@@ -219,9 +219,17 @@ def seg_unit(v, seg, tier, res):
     if seg != 'MSH':
         all2 = {idx: [field_all_leaves(v, fr), field_all_leaves(v, fr, 'y')] for idx, fr in rows}
         check_segment_text(res, v, seg, segtext(all2), 'all-leaves-2reps', rank=3)
-        if tier == 'thorough':
-            all3 = {idx: [field_all_leaves(v, fr), '', field_all_leaves(v, fr, 'y')] for idx, fr in rows}
-            check_segment_text(res, v, seg, segtext(all3), 'all-leaves-3reps-empty-middle', rank=3)
+        all3 = {idx: [field_all_leaves(v, fr), '', field_all_leaves(v, fr, 'y')] for idx, fr in rows}
+        check_segment_text(res, v, seg, segtext(all3), 'all-leaves-3reps-empty-middle', rank=3)
+        for idx, fr in rows[:2]:
+            check_segment_text(res, v, seg, segtext({idx: ['', field_all_leaves(v, fr)]}), 'empty-first-repetition', rank=3)
+    # fields of type varies accept any component structure
+    for idx, fr in rows:
+        if fr.kind == 'leaf' and fr.datatype == 'varies':
+            for shape, rep in (('varies-2comp', {1: 'a', 2: 'b'}), ('varies-empty-middle', {1: 'a', 3: 'c'}), ('varies-empty-first', {2: 'b'}),
+                               ('varies-sub', {1: {1: 'a', 2: 'b'}, 2: 'c'}), ('varies-empty-first-sub', {2: {2: 's'}})):
+                check_segment_text(res, v, seg, segtext({idx: [rep]}), shape, rank=3)
+                check_segment_text(res, v, seg, segtext({idx: [rep, rep]}), shape + '-2reps', rank=3)
     # (c) field and component entry points
     for idx, fr in rows:
         ftext = refmodel.enc_rep(field_all_leaves(v, fr), ec_n)
@@ -289,6 +297,8 @@ def seg_unit(v, seg, tier, res):
             text = refmodel.enc_message([('MSH', f)], ec_n)
             for fg in (True, False):
                 check_message_text(res, v, 'MSH', name, text, ec_n, fg, 'all-leaves-msh')
+    for text in escape_texts(v, seg):
+        check_segment_text(res, v, seg, text, 'escape-word', rank=3)
     if tier == 'thorough':
         thorough_extra(res, v, seg, rows, segtext)
     res.sample({'v': v, 'segment': seg, 'all_leaves_text': full[:200]}, cap=4)
@@ -386,20 +396,76 @@ def thorough_extra(res, v, seg, rows, segtext):
             check_segment_text(res, v, seg, segtext({idx: [rep]}), 'escape-word', rank=3)
 
 
+def first_text_leaf(v, seg):
+    for idx, fr in usable_rows(v, seg):
+        if fr.kind == 'leaf':
+            if fr.datatype in TEXTUAL:
+                return idx, None, None
+        else:
+            for cr in fr.children:
+                j = tables.comp_index(cr.name)
+                if cr.kind == 'leaf' and cr.datatype in TEXTUAL:
+                    return idx, j, None
+                for sr in cr.children:
+                    if sr.datatype in TEXTUAL:
+                        return idx, j, tables.comp_index(sr.name)
+    return None
+
+
+def escape_texts(v, seg):
+    """segment texts whose first textual leaf carries an escape-language word"""
+    t = first_text_leaf(v, seg)
+    if t is None:
+        return []
+    idx, j, k = t
+    ec = refmodel.default_ec(v)
+    ec.pop('TRUNCATION', None)
+    words = ['\\F\\', 'a\\E\\b', '\\S\\\\T\\', '\\H\\x\\N\\', '\\R\\'] + (['\\L\\', 'a\\L\\b'] if v >= '2.7' else [])
+    out = []
+    for w in words:
+        rep = w if j is None else {j: (w if k is None else {k: w})}
+        out.append(refmodel.enc_segment(seg, {idx: [rep]}, ec))
+    return out
+
+
+def cross_unit(va, vb, res):
+    """order dependence across versions: escape-language leaves of version vb right after the same texts were
+    parsed and encoded in version va, in one (fresh) process"""
+    from hl7apy.parser import parse_segment
+    for seg in ('PID', 'NTE', 'OBX'):
+        if seg not in common.libs()[va].SEGMENTS or seg not in common.libs()[vb].SEGMENTS:
+            continue
+        for text in escape_texts(va, seg):
+            try:
+                parse_segment(text, version=va, validation_level=TOLERANT).to_er7()
+            except Exception:
+                pass
+        for text in escape_texts(vb, seg):
+            check_segment_text(res, vb, seg, text, 'escape-word-after-v%s' % va, rank=3)
+    res.dims['cross-version pairs'] += 1
+
+
 def units(tier):
-    return [(v, seg) for v in VERSIONS for seg in tables.segment_names(v)]
+    us = [(v, seg) for v in VERSIONS for seg in tables.segment_names(v)]
+    us += [('cross', a, b) for a in VERSIONS for b in VERSIONS if a != b]
+    return us
 
 
 def run_unit(unit, tier):
     res = Result()
+    if unit[0] == 'cross':
+        cross_unit(unit[1], unit[2], res)
+        res.states = res.enumerated
+        return res
     seg_unit(unit[0], unit[1], tier, res)
+    res.states = res.enumerated
     return res
 
 
 def run(tier, seed, extra):
     us = common.rotate(units(tier), seed)
     extra['bounds'] = {'leaves_filled': 'each alone + all' if tier == 'quick' else 'each alone + all pairs in a field + all',
-                       'repetitions': 2 if tier == 'quick' else 3,
+                       'repetitions': 3,
                        'escape_words_tokens': 0 if tier == 'quick' else 3}
     return common.run_units(run_unit, us, tier)
 
